@@ -4,6 +4,7 @@ from ..facts import callee_name
 from .. import cfg as C
 from ..fields import field_accesses
 from ..feas import infeasible_edges
+from .. import vcai as V
 
 BODIES = ("graphs::GraphBody", "graphs::ContextBody")
 
@@ -302,9 +303,26 @@ def rollback(facts, rep, flow_of):
         calls = [bb for bb, tt in b.calls() if callee_name(tt) == "graphs::Context::try_update_total_size"]
         if rep.anchor("C11.R", "try_update_total_size call in add_node_internal", calls):
             fl = flow_of(name)
-            rem = C.assume_call_results(b, [(lambda cn, ct, cbb: (cn or "").endswith("Result::<T, E>::is_err")
-                                              and any(o[0] == "call" and o[1] in calls
-                                                      for o in fl.origins(ct["args"][0], (cbb, None))), False)])
+            # assume the update succeeded (whatever the spelling of the test: is_err(), `if let Err(..)`, match, `?`)
+            okv = ("enum", "std::result::Result", 0, "Ok", (V.TOP,))
+            # locals that merely carry the call's result further (`let r = match .. { .., Ok(_) => ctx.try_update_total_size(..) }`):
+            # on every path that comes from the call they hold its result, so they are Ok too
+            carriers = set()
+            dests = {b.term(c)["dest"][0] for c in calls if b.term(c).get("dest")}
+            frontier = set(dests)
+            for _ in range(6):
+                new_ = set()
+                for bb_, j_, place_, rv_ in b.assigns():
+                    if len(place_) == 1 and rv_[0] == "use" and rv_[1][0] != "k" and rv_[1][1] == [rv_[1][1][0]] and rv_[1][1][0] in frontier \
+                            and place_[0] not in carriers and place_[0] not in dests:
+                        new_.add(place_[0])
+                carriers |= new_
+                frontier = new_
+                if not new_:
+                    break
+            res_ok = V.executable_under(facts, b, site_values={(b.id, c): okv for c in calls},
+                                        forced={l_: okv for l_ in (carriers | dests)} or None)
+            rem = {(x, y) for x, y in C.edges(b) if (x, y) not in res_ok.edges}
             bad = set()
             for c in calls:
                 bad |= (C.reachable_after(b, c, removed_edges=rem) & errs)
@@ -512,60 +530,82 @@ def dependency_discipline(facts, rep, flow_of):
         return any(o[0] == "param" and o[1] == 1 for o in ors)
 
     guards = {}
-    for bb in range(b.nblocks()):
-        if b.term(bb)["k"] != "switch" or b.is_cleanup(bb):
-            continue
-        src = C.switch_source(b, bb)
-        if not src:
-            continue
-        kind = None
-        bad = None
-        if src["kind"] == "call":
-            ct = b.term(src["bb"])
-            cn = src["callee"] or ""
-            d = ct["f"].get("def") or ""
-            if d in ("std::cmp::PartialEq::ne", "std::cmp::PartialEq::eq") and len(ct["args"]) == 2:
-                ao = fl.origins(ct["args"][0], (src["bb"], None))
-                bo = fl.origins(ct["args"][1], (src["bb"], None))
-                na, nb = names(ao), names(bo)
-                if "graphs::Node::get_graph" in na | nb and (has_self(ao) or has_self(bo)):
-                    kind = "dependency lives in this graph"
-                elif "graphs::Graph::get_context" in na and "graphs::Graph::get_context" in nb:
-                    kind = "graph dependency is in the same context"
-                elif any(x.endswith("::index") for x in na | nb) or ("graphs::Node::get_id" in na | nb and
-                                                                    any(o[0] == "call" and o[2].endswith("::borrow") for o in ao | bo)):
-                    kind = "stored node at that id is the dependency"
-                else:
-                    # Index collapses into its container: nodes[..] vs dependency
-                    ga = ct["f"].get("ga") or []
-                    if ga and ga[0] == "graphs::Node":
+
+    def collect(b, fl, escapes_from, via=None):
+        """classify the guard tests of body b; escapes_from(target block) = the failing branch can still lead to node creation"""
+        for bb in range(b.nblocks()):
+            if b.term(bb)["k"] != "switch" or b.is_cleanup(bb):
+                continue
+            src = C.switch_source(b, bb)
+            if not src:
+                continue
+            kind = None
+            bad = None
+            if src["kind"] == "call":
+                ct = b.term(src["bb"])
+                cn = src["callee"] or ""
+                d = ct["f"].get("def") or ""
+                if d in ("std::cmp::PartialEq::ne", "std::cmp::PartialEq::eq") and len(ct["args"]) == 2:
+                    ao = fl.origins(ct["args"][0], (src["bb"], None))
+                    bo = fl.origins(ct["args"][1], (src["bb"], None))
+                    na, nb = names(ao), names(bo)
+                    if "graphs::Node::get_graph" in na | nb and (has_self(ao) or has_self(bo)):
+                        kind = "dependency lives in this graph"
+                    elif "graphs::Graph::get_context" in na and "graphs::Graph::get_context" in nb:
+                        kind = "graph dependency is in the same context"
+                    elif any(x.endswith("::index") for x in na | nb) or ("graphs::Node::get_id" in na | nb and
+                                                                        any(o[0] == "call" and o[2].endswith("::borrow") for o in ao | bo)):
                         kind = "stored node at that id is the dependency"
-                if kind:
-                    bad = (d.endswith("::ne"))
-            elif cn == "graphs::Graph::is_finalized":
-                ro = fl.origins(ct["args"][0], (src["bb"], None))
-                if not has_self(ro):
-                    kind = "graph dependency is finalized"
-                    bad = False
-        elif src["kind"] == "cmp" and src["op"] in ("Ge", "Lt", "Gt", "Le"):
-            ao = fl.origins(src["a"], (src["bb"], src["j"]))
-            bo = fl.origins(src["b"], (src["bb"], src["j"]))
-            na, nb = names(ao), names(bo)
-            if "graphs::Node::get_id" in na and any(x.endswith("::len") for x in nb):
-                kind = "dependency id precedes the new node"
-                bad = {"Ge": True, "Lt": False}.get(src["op"])
-            elif "graphs::Graph::get_id" in na and "graphs::Graph::get_id" in nb:
-                kind = "graph dependency is older than this graph"
-                bad = {"Ge": True, "Lt": False}.get(src["op"])
-        if kind is None or bad is None:
+                    else:
+                        # Index collapses into its container: nodes[..] vs dependency
+                        ga = ct["f"].get("ga") or []
+                        if ga and ga[0] == "graphs::Node":
+                            kind = "stored node at that id is the dependency"
+                    if kind:
+                        bad = (d.endswith("::ne"))
+                elif cn == "graphs::Graph::is_finalized":
+                    ro = fl.origins(ct["args"][0], (src["bb"], None))
+                    if not has_self(ro):
+                        kind = "graph dependency is finalized"
+                        bad = False
+            elif src["kind"] == "cmp" and src["op"] in ("Ge", "Lt", "Gt", "Le"):
+                ao = fl.origins(src["a"], (src["bb"], src["j"]))
+                bo = fl.origins(src["b"], (src["bb"], src["j"]))
+                na, nb = names(ao), names(bo)
+                if "graphs::Node::get_id" in na and any(x.endswith("::len") for x in nb):
+                    kind = "dependency id precedes the new node"
+                    bad = {"Ge": True, "Lt": False}.get(src["op"])
+                elif "graphs::Graph::get_id" in na and "graphs::Graph::get_id" in nb:
+                    kind = "graph dependency is older than this graph"
+                    bad = {"Ge": True, "Lt": False}.get(src["op"])
+            if kind is None or bad is None:
+                continue
+            if src["neg"]:
+                bad = not bad
+            t = b.term(bb)
+            arms = dict(t["arms"])
+            tgt_bad = arms.get("1", t["else"]) if bad else arms.get("0", t["else"])
+            escapes = escapes_from(tgt_bad)
+            guards.setdefault(kind, []).append((bb if via is None else "%s:bb%d" % (via, bb), not escapes))
+
+    collect(b, fl, lambda tgt: A in C.reachable(b, [tgt]))
+    # checks moved into a helper (`self.check_graph_dependency(dep)?`): the helper's failing branch must not reach an Ok
+    # return, and a failing helper call must keep add_node_internal away from the node aggregate
+    for cbb, ct in b.calls():
+        h = facts.bodies.get(callee_name(ct) or "")
+        if h is None or h is b or h.kind == "closure" or b.is_cleanup(cbb) or not h.file.endswith("graphs.rs"):
             continue
-        if src["neg"]:
-            bad = not bad
-        t = b.term(bb)
-        arms = dict(t["arms"])
-        tgt_bad = arms.get("1", t["else"]) if bad else arms.get("0", t["else"])
-        escapes = A in C.reachable(b, [tgt_bad])
-        guards.setdefault(kind, []).append((bb, not escapes))
+        rty = h.local_ty(0)
+        if not rty.startswith("std::result::Result") or A not in C.reachable(b, [cbb]):
+            continue
+        errv = ("enum", "std::result::Result", 1, "Err", (V.TOP,))
+        r_err = V.executable_under(facts, b, site_values={(b.id, cbb): errv})
+        rem_ = {(x, y) for x, y in C.edges(b) if (x, y) not in r_err.edges}
+        if A in C.reachable_after(b, cbb, removed_edges=rem_):
+            continue        # a failing helper call does not stop the node from being created: its checks do not count
+        oks = C.ok_exit_blocks(h)
+        hfl = Flow(facts, h)
+        collect(h, hfl, lambda tgt, h=h, oks=oks: bool(set(C.reachable(h, [tgt])) & set(oks)), via=h.id.split("::")[-1])
     want = ["dependency lives in this graph", "dependency id precedes the new node", "stored node at that id is the dependency",
             "graph dependency is finalized", "graph dependency is older than this graph", "graph dependency is in the same context"]
     for w in want:
